@@ -367,6 +367,9 @@ def sweeps(tier, rng):
                             else: seq = [what] + others
                             objs = {}
                             for t in seq: touch(f, t, objs)
+                            # the glyph order is asked for in EVERY history (first, or after the tables): asking loads 'post' / 'CFF ' as a
+                            # side effect, and a history that loads more tables than another is not "the same tables in another order"
+                            f.getGlyphOrder()
                             if hist == "save-first": f.save(io.BytesIO())
                             if what not in objs or not _edit(f, what, objs[what]): continue
                             b = io.BytesIO(); f.save(b); outs[(hist, lazy)] = b.getvalue()
